@@ -16,10 +16,19 @@
   Answer `M <model outcome> ;; S <spec outcome>`, outcome = `ok <orig|-> <n> <words…>` | `reject`
   (`panic` for a model panic; with two texts whose outcomes differ, `layout-diff <o₁> ## <o₂>`;
   `S outside` when the program is outside the specification's domain — a generator error).
+
+  Second specification-side computation (ties `Spec.render` to the correspondence): the abstract
+  program is rendered by the SPECIFICATION's `render` under the canonical layout `Layout.canon`, the
+  result is assembled by the model and must give `Spec.Prog.image` (theorem
+  `Lace.C01.assemble_image_render`; on rejected programs the model must reject as well).  A
+  disagreement replaces the `S` answer by `spec-render-mismatch <model(render L0 P)> ## <spec(P)>`.
+  Programs the canonical layout cannot write (`canonOk`: a string body with a raw quote / line feed,
+  `br` without condition, 65,535 words or more) are skipped.
 -/
 import Driver.Proto
 import Driver.Asm
 import Lace.Spec.Prog
+import Lace.Spec.Render
 open Lace Lace.Driver Lace.Asm
 
 namespace Lace.Driver.Enc
@@ -111,6 +120,19 @@ def specOutcome (flag : Bool) (P : Prog) : String :=
   | some (o, ws) => showImage o ws
   | none => "reject"
 
+/-- the canonical layout is a well-formed layout of `P` (`Layout.ok` without the quadratic check
+that distinct labels have distinct names: `canonName` is `L<decimal id>`) -/
+def canonOk (P : Prog) : Bool :=
+  P.syntaxOk && P.renderable && okToks canonName true (canonLays P.items) P.toks
+
+/-- `render (Layout.canon P) P`, assembled by the model, against `Prog.image`: `none` = agree / skipped -/
+def renderCheck (flag : Bool) (P : Prog) : Option String :=
+  if canonOk P then
+    let m := canonOutcome (assemble flag [] (render (Layout.canon P) P)).1
+    let s := specOutcome flag P
+    if m == s then none else some ("spec-render-mismatch " ++ m ++ " ## " ++ s)
+  else none
+
 /-- `P01 stack text₁ text₂|= items…` -/
 def handleP01 (toks : List String) : String :=
   match toks with
@@ -126,7 +148,8 @@ def handleP01 (toks : List String) : String :=
         | some t2 =>
           let m2 := canonOutcome (assemble flag [] t2).1
           if m1 == m2 then m1 else "layout-diff " ++ m1 ++ " ## " ++ m2
-      "M " ++ m ++ " ;; S " ++ specOutcome flag { items := items }
+      let P : Prog := { items := items }
+      "M " ++ m ++ " ;; S " ++ (match renderCheck flag P with | some e => e | none => specOutcome flag P)
     | _, _, _, _ => "bad-request"
   | _ => "bad-request"
 
